@@ -171,7 +171,41 @@ ENUM_VOCAB = [("PUSH", "0"), ("PUSH", "1"), ("PUSH", "20"), ("DUP1", None), ("DU
 ENUM_MEM = [("MSTORE", None), ("MSTORE8", None), ("MLOAD", None), ("SLOAD", None), ("SSTORE", None), ("DUP1", None), ("DUP2", None),
             ("SWAP1", None), ("KECCAK256", None)]
 ENUM_FLAGS = [[], ["-no-simplification"], ["-pop-uninterpreted"]]
-ENUM_TASKS = len(ENUM_VOCAB) * len(ENUM_FLAGS) + len(ENUM_MEM)
+ENUM_TASKS = len(ENUM_VOCAB) * len(ENUM_FLAGS) + len(ENUM_MEM) + 3
+
+
+def const_interval_blocks(k):
+    """Constant-address interval sweep: pairs of accesses whose byte ranges are constants around the 32-byte boundaries
+    (hash ranges against stores of small and large constants, loads against stores, stores against stores), in both orders."""
+    P = lambda v: ("PUSH", "%x" % v)
+    offs = [0, 1, 0x1f, 0x20, 0x21, 0x3f, 0x40]
+    out = []
+    if k == 0:
+        for ho in (0, 0x20):
+            for hl in (0x20, 0x40, 0x41):
+                for so in (0, 0x1f, 0x20, 0x3f, 0x40, 0x5f, 0x60):
+                    for val in (0, 1, 0x20, 0x40, (1 << 256) - 1):
+                        for st in ("MSTORE", "MSTORE8"):
+                            h = [P(hl), P(ho), ("KECCAK256", None)]
+                            w = [P(val), P(so), (st, None)]
+                            out.append(h + w)
+                            out.append(w + h)
+    elif k == 1:
+        for a in offs:
+            for b in offs:
+                for st in ("MSTORE", "MSTORE8"):
+                    ld = [P(a), ("MLOAD", None)]
+                    w = [("DUP2", None), P(b), (st, None)]
+                    out.append(ld + w)
+                    out.append(w + ld)
+                    out.append(ld + [("DUP3", None), P(b), (st, None)] + [P(a), ("MLOAD", None)])
+    else:
+        for a in offs:
+            for b in offs:
+                for s1, s2 in (("MSTORE", "MSTORE"), ("MSTORE", "MSTORE8"), ("MSTORE8", "MSTORE"), ("MSTORE8", "MSTORE8")):
+                    out.append([("DUP1", None), P(a), (s1, None), ("DUP2", None), P(b), (s2, None)])
+                    out.append([("DUP1", None), P(a), (s1, None), ("DUP2", None), P(b), (s2, None), P(a), ("MLOAD", None)])
+    return out
 
 
 def enum_blocks(i):
@@ -183,8 +217,10 @@ def enum_blocks(i):
         first = ENUM_VOCAB[i % len(ENUM_VOCAB)]
         flags = ENUM_FLAGS[i // len(ENUM_VOCAB)]
         return [[first]] + [[first, a] for a in ENUM_VOCAB] + [[first, a, b] for a in ENUM_VOCAB for b in ENUM_VOCAB], list(flags)
-    first = ENUM_MEM[i - n]
-    return [[first, a, b, c] for a in ENUM_MEM for b in ENUM_MEM for c in ENUM_MEM], []
+    if i - n < len(ENUM_MEM):
+        first = ENUM_MEM[i - n]
+        return [[first, a, b, c] for a in ENUM_MEM for b in ENUM_MEM for c in ENUM_MEM], []
+    return const_interval_blocks(i - n - len(ENUM_MEM)), []
 
 
 def task(spec_):
